@@ -358,6 +358,12 @@ static void insert_arg_range(rtosc_arg_val_t* arg, int32_t num,
 
 static const char* numeric_range_types() { return "cihfdTF"; }
 
+int32_t delta_from_arg_vals(const rtosc_arg_val_t* llhsarg,
+                            const rtosc_arg_val_t* lhsarg,
+                            const rtosc_arg_val_t* rhsarg,
+                            rtosc_arg_val_t* delta,
+                            int must_be_unity);
+
 static const char* numeric_range_convertible_types()
 {
     // note: floats can not be converted to counting ranges safely
@@ -416,6 +422,17 @@ static int32_t rtosc_convert_to_range(const rtosc_arg_val_t* const arg,
                                                          arg+next, NULL))
                 go_on = false;
         }
+    }
+
+    // only print what the readers expand to the same values: they compute
+    // the count from first, second and last (this fails if last-second
+    // does not fit into the type)
+    if(has_delta && num_common >= range_min)
+    {
+        rtosc_arg_val_t delta2;
+        if(delta_from_arg_vals(arg, arg+1, arg+(num_common-1), &delta2, 0)
+           != (int32_t)num_common-1)
+            return 0;
     }
 
     if(num_common >= range_min)
